@@ -64,7 +64,10 @@ let _ = m.get(&key, &g); let _ = m.get_key_value(&key, &g); let _ = m.contains_k
 let _ = m.iter(&g).count(); let _ = m.keys(&g).count(); let _ = m.values(&g).count(); let _ = m.len(); let _ = m.is_empty();
 let r = m.pin(); let _ = r.get(&key); let _ = r.contains_key(&key); let _ = r.iter().count(); let _ = r.len();
 let s: HashSet<NoBoth> = HashSet::new(); let g = s.guard(); let _ = s.contains(&key, &g); let _ = s.get(&key, &g); let _ = s.iter(&g).count(); let _ = s.len();
-let _ = s.pin().contains(&key);
+let _ = s.pin().contains(&key); let _ = s.pin().get(&key); let _ = s.pin().iter().count(); let _ = s.pin().len();
+let s2: HashSet<NoBoth> = HashSet::new(); let _ = s.pin().is_disjoint(&s2.pin()); let _ = s.pin().is_subset(&s2.pin()); let _ = s.pin().is_superset(&s2.pin());
+let g2 = s2.guard(); let _ = s.is_disjoint(&s2, &g, &g2); let _ = s.is_subset(&s2, &g, &g2); let _ = s.is_superset(&s2, &g, &g2);
+let r = m.pin(); let _ = r.get_key_value(&key); let _ = r.keys().count(); let _ = r.values().count(); let _ = r.is_empty();
 '''
 
 
